@@ -7,14 +7,14 @@ CHECKS = {
  "C01": ("exploration", "4/C01", PKT + " (accept => the proving chain's real store holds the commitment at the proof height; reject => empty KV diff)",
          "Every MsgRecvPacket delivered in seeded multi-chain histories (honest relays, ~35 mutation classes of fields/proof/height/chain/signer, replays) is judged against the proving chain's real IAVL store; held = no accepted receive without a genuine commitment and no rejected receive with a state change, on the histories explored.",
          "Trusts the harness's own chain driver (vnet), IAVL versioned reads as ground truth and the SDK's tx rollback; soundness is against the listed mutation classes, not cryptographic forgery."),
- "C02": ("exploration", "4/C02", "runtime monitoring: exactly-once counter over hook-reported application callbacks + bounded-progress oracle for honest fresh relays",
-         "Counts, over whole histories with replays (verbatim and re-proven, before/after ack and clean), how often the destination application callback and the packet-layer accept a given (chain,src,dst,seq); and asserts that an honest relay whose preconditions the harness established itself is accepted.",
+ "C02": ("exploration", "4/C02", "runtime monitoring: exactly-once counter over hook-reported application callbacks + bounded-progress oracle for honest fresh relays + porcupine linearizability check of concurrent-relayer histories (race detector in the thorough tier)",
+         "Counts, over whole histories with replays (verbatim and re-proven, before/after ack and clean), how often the destination application callback and the packet-layer accept a given (chain,src,dst,seq); and asserts that an honest relay whose preconditions the harness established itself is accepted. Half of the histories are clean-heavy with replay bursts right after every accepted receive-clean. 12 (thorough 300) runs with 3-5 relayer goroutines racing overlapping receives into one block producer (several txs per block) are recorded as call/return histories and checked per packet with porcupine against first-succeeds / rest-fail; the thorough tier repeats that workload under the Go race detector.",
          "Hook H1 reports callback dispatch; the liveness half is bounded (accepted in the same step)."),
  "C03": ("exploration", "4/C03", PKT + " + write-once monitor on every KV diff",
          "Every MsgAcknowledgement (honest, forged ack bytes, swapped success/error, foreign proofs, replays) judged against pre-state commitment and the proving chain's real ack; every block's diff checked for ack overwrite / commitment disappearance; recorded ack hash compared with the bytes the application returned (H1).",
          "As C01; H1 supplies the bytes returned by the application."),
  "C09": ("exploration", "4/C09", "runtime monitoring: reference sequence model + KV-diff shape oracle on every send",
-         "Every send (mock module, NFT, MT; succeeding and failing in 7 ways) is checked for the exact tibc diff {counter n->n+1, commitment(n)=sha256(data)}, the announced event, gap-free numbering per pair and exact lock/burn of the sent token; failing sends must leave an empty diff.",
+         "Every send (mock module, NFT, MT; succeeding and failing in 7 ways; in the packet workload and in the token workload with voucher returns, partial amounts, over-sends and relayed routes) is checked for the exact tibc diff {counter n->n+1, commitment(n)=sha256(data)}, the announced event, gap-free numbering per pair and exact lock/burn of the sent token; failing sends must leave an empty diff.",
          "Failing module-level sends are executed on a branched context as a module inside a failing transaction would be."),
  "C10": ("exploration", "4/C10", PKT + " + clean-point monotonicity monitor on every KV diff",
          "Clean requests with N from the boundary set around clean point / first unacknowledged / max acknowledged, honest and mutated receive-clean messages on relay and destination, replays below the clean point; accepted cleans are checked against range, ground truth and the exact set of keys they may delete.",
@@ -26,8 +26,8 @@ CHECKS = {
          "10^5-10^6 (rule list, triple) pairs over the identifier alphabet biased to regex metacharacters and to triples that a regex reading of the rule would also match; SetRoutingRules acceptance and Authenticate are compared with a reference written from the statement; also through MsgSetRoutingRules.",
          "The reference model (harness/model/routing.go) is the statement; keeper runs on a branched context of a real chain."),
  "C14": ("exploration", "4/C14", "runtime monitoring: reference status oracle on real client stores for the three client types + expired-client scenarios on real chains",
-         "Status() of Tendermint/BSC/ETH clients evaluated on 10^4-10^6 (timestamp, period, block time) triples around the boundary with all sub-second classes; on real chains updates/receives/acks/receive-cleans with genuine proofs through an expired Tendermint client must be refused and through an active one accepted.",
-         "age == period is not judged (the statement says older than / inside). BSC/ETH packet paths through expired clients are exercised in C08's world, not here."),
+         "Status() of Tendermint/BSC/ETH clients evaluated on 10^4-10^6 (timestamp, period, block time) triples around the boundary with all sub-second classes; on real chains updates/receives/acks/receive-cleans with genuine proofs through an expired Tendermint client must be refused and through an active one accepted; MsgRecvPacket with genuine Merkle-Patricia proofs through BSC and ETH clients is accepted inside and refused past the trusting period.",
+         "age == period is not judged (the statement says older than / inside)."),
  "C19": ("fault_enumeration", "4/C19", "runtime monitoring: KV-diff oracle under boundary fault injection (gas-limit sweep = abort at successive store accesses, multi-message late failure, crafted late-failing packets)",
          "Every TIBC message kind is delivered under a gas sweep (hundreds of abort points per kind), in multi-message transactions with a late failure and as crafted late-failing packets; every failed transaction must leave tibc/NFT/nft/mt untouched and every error-acknowledged receive must leave ownership/balances/supplies untouched with exactly receipt+ack written.",
          "Trusts BaseApp's branch-and-discard; the sweep granularity (gas step) bounds which store accesses become abort points."),
@@ -59,11 +59,11 @@ CHECKS = {
          "Recorded mainnet children and seal/field corruptions with the real seal check; synthetic trees with forks up to 6+ levels below the tip in random submission order, duplicates and 18 single-field perturbations; after every accepted header all consensus states up to the latest header must lie on the parent-linked branch ending there.",
          "Hook H2 skips only the ethash computation for synthetic headers; trusting period large enough that pruning does not interfere."),
  "C16": ("exploration", "4/C16", "runtime monitoring: twin-execution oracle (original chain vs a fresh chain initialised from its genesis export) over all TIBC gRPC queries and lock-step follow-up messages",
-         "Chains reached by the adversarial packet workload (client updates steered onto heights whose encoding contains 0x2F) are exported with the module manager's genesis export and re-imported; all 17 TIBC queries over every key of the original's raw dump and follow-up messages (pending relays proven at stored old heights, governance, client updates that must prune, cleans, replays of every old receive, voucher send-backs) must behave identically. Three recorded known findings (no genesis field for clean points / max acked sequence, no genesis for the transfer modules' class traces).",
+         "Chains reached by the adversarial packet workload (client updates steered onto heights whose encoding contains 0x2F; plus a BSC client fed 14 synthetic headers and an ETH client with a small header tree incl. a fork) are exported with the module manager's genesis export and re-imported; all 17 TIBC queries over every key of the original's raw dump and follow-up messages (pending relays proven at stored old heights, further BSC / ETH updates incl. a fork switch, governance, client updates that must prune, cleans, replays of every old receive, voucher send-backs) must behave identically. Three recorded known findings (no genesis field for clean points / max acked sequence, no genesis for the transfer modules' class traces).",
          "simapp's default export (all modules) cannot run for reasons unrelated to TIBC (evidence keeper without store key); the explicit module list without `evidence` is used. After the first message-level difference a twin is abandoned (later differences would be cascades)."),
  "C20": ("exploration", "4/C20", "runtime monitoring: byte-level comparison of recorded result streams of repeated executions (same process, fresh processes with perturbed environment, injected TMPDIR fault)",
-         "Histories with every TIBC transaction kind incl. BSC client updates (valid/invalid synthetic headers) and ETH updates on recorded mainnet headers with the real ethash check are executed 3-7x in one process and in fresh processes with other GOMAXPROCS / TZ / LANG / junk-filled TMPDIR / missing TMPDIR; per block, inputs (time, tx bytes) and outputs (code, codespace, log, gas, data, events, app hash) are digested and compared; differing inputs = harness nondeterminism = inconclusive.",
-         "Go randomises map iteration per range statement, so order dependence shows within a few repeats; a run under -race is not part of the registered commands."),
+         "Histories with every TIBC transaction kind incl. BSC client updates (valid/invalid synthetic headers) and ETH updates on recorded mainnet headers with the real ethash check are executed 3-7x in one process and in fresh processes with other GOMAXPROCS / TZ / LANG / junk-filled TMPDIR / missing TMPDIR, plus a wall-clock probe (a synthetic ETH header dated 20 s ahead of the real clock in a block of the same virtual time, replayed after the real clock passed it); per block, inputs (time, tx bytes) and outputs (code, codespace, log, gas, data, events, app hash) are digested and compared; differing inputs = harness nondeterminism = inconclusive.",
+         "Go randomises map iteration per range statement, so order dependence shows within a few repeats; the thorough tier adds a pass under the Go race detector with concurrent gRPC readers (reports whose racing access is in tibc-go code are violations, the others are listed)."),
 }
 PENDING = {
 }
